@@ -71,8 +71,9 @@ func (v *Vue) evalAttributes(ctx VueContext, n *html.Node) (map[string]any, erro
 				}
 			}
 			newAttrs = append(newAttrs, html.Attribute{
-				Key: boundName,
-				Val: boundValue,
+				Namespace: a.Namespace, // xlink:href, xml:lang on foreign elements
+				Key:       boundName,
+				Val:       boundValue,
 			})
 		}
 	}
